@@ -47,7 +47,7 @@ def main():
     tnames = re.findall(r"#\[test\]\s*(?:#\[[^\]]*\]\s*)*fn\s+(\w+)", demo)
     open(tests, "w").write(orig + "\n" + demo + "\n")
     (res1, p1, f1), out1 = cargo_test()
-    failing = re.findall(r"test tests::(\w+) \.\.\. FAILED", out1)
+    failing = re.findall(r"test tests::(?:\w+::)*(\w+) \.\.\. FAILED", out1)
     if res1 == "build-failed" and ("SIGABRT" in out1 or "stack overflow" in out1 or "SIGSEGV" in out1):
         # the test process died: attribute the crash to the demo test(s) by running them alone
         failing = []
@@ -65,7 +65,7 @@ def main():
     # without the patch
     sh("cd %s && git apply -R %s" % (WT, patch))
     (res2, p2, f2), out2 = cargo_test()
-    failing2 = re.findall(r"test tests::(\w+) \.\.\. FAILED", out2)
+    failing2 = re.findall(r"test tests::(?:\w+::)*(\w+) \.\.\. FAILED", out2)
     sh("cd %s && git checkout -- . && git clean -fdq -e target" % WT)
     if res2 != "ok" or failing2:
         print("FAIL: demo does not pass without the patch: %s %r\n%s" % (res2, failing2, out2[-1500:])); return 1
